@@ -4,6 +4,9 @@ import SquidModel.Properties.C57
 #print axioms SquidModel.C57.readable_entries_intact
 #print axioms SquidModel.C57.readable_size_exact
 #print axioms SquidModel.C57.readable_chains_disjoint
+#print axioms SquidModel.C57.readable_chain_matches_disk
+#print axioms SquidModel.C57.readable_chain_own_slots_partial
+#print axioms SquidModel.C57.readable_chain_own_slots_fixed
 #print axioms SquidModel.C57.short_entry_counterexample
 #print axioms SquidModel.C57.short_entry_fixed
 #print axioms SquidModel.C57.stolen_slot_counterexample
